@@ -1,9 +1,12 @@
 """Implementation driver for C18: runs Automation / LFO scenarios of the repository under test on a manually
 ticked Timeline (recording OutputDevice, DummyClock) and reports API-level observables only:
 automation.value / lfo.value after every operation and tick, what bound objects received, what a scheduled
-track read.  stdin: {"autos": [...], "lfos": [...]}  stdout: JSON.  Every exception is caught per case and
+track read.  Bound targets may be plain objects, dataclass instances or instances of a class defining __eq__ (several
+of them equal at bind time, never identical); every call is recorded under the target's identity.  The timeline's
+resolution may be re-assigned between two operations (set_tpb).  stdin: {"autos": [...], "lfos": [...]}  stdout: JSON.  Every exception is caught per case and
 reported by class name."""
 import sys, json, warnings, io, contextlib
+from dataclasses import dataclass
 import isobar as iso
 
 warnings.simplefilter("ignore")
@@ -47,6 +50,78 @@ def f(x):
     return None if x is None else float(x)
 
 
+# ---- targets that compare equal without being identical (value types, classes defining __eq__) --------------
+@dataclass
+class Voice:
+    """a value-type synth voice bound in "attr" mode: == compares the fields (dataclass), so two voices made from the
+    same preset with the same level are equal but not identical.  What it is given is recorded under its identity."""
+    preset: int = 0
+    level: float = 0.0
+
+    def __setattr__(self, k, v):
+        object.__setattr__(self, k, v)
+        sink = self.__dict__.get("_sink")
+        if k == "level" and sink is not None:
+            sink.append([self.__dict__["_ident"], float(v), True])
+
+
+@dataclass
+class Strip:
+    """a value-type mixer strip bound in "method" mode: equal whenever the bus is"""
+    bus: int = 0
+
+    def set_level(self, value=None, **kw):
+        d = self.__dict__
+        d["_sink"].append([d["_ident"], None if value is None else float(value), kw == d["_kw"]])
+
+
+class Named:
+    """a class with its own __eq__ / __hash__ (by name); used in both modes"""
+    def __init__(self, name, ident, log, kwargs):
+        self.name, self._id, self._log, self._kw, self._v = name, ident, log, kwargs, None
+
+    def __eq__(self, other):
+        return isinstance(other, Named) and other.name == self.name
+
+    def __hash__(self):
+        return hash(self.name)
+
+    @property
+    def level(self):
+        return self._v
+
+    @level.setter
+    def level(self, v):
+        self._v = v
+        self._log.append([self._id, float(v), True])
+
+    def set_level(self, value=None, **kw):
+        self._log.append([self._id, None if value is None else float(value), kw == self._kw])
+
+
+def make_target(mode, kind, key, ident, log, kwargs, current):
+    """kind: plain (identity equality) / dc (dataclass, equal fields at bind time) / eq (class defining __eq__)"""
+    if kind == "dc":
+        if mode == "attr":
+            t = Voice(preset=key, level=float(current))
+            t.__dict__["_ident"], t.__dict__["_sink"] = ident, log
+        else:
+            t = Strip(bus=key)
+            t.__dict__.update({"_ident": ident, "_sink": log, "_kw": kwargs})
+        return t
+    if kind == "eq":
+        return Named("voice%d" % key, ident, log, kwargs)
+    return AttrTarget(ident, log) if mode == "attr" else MethodTarget(ident, log, kwargs)
+
+
+def set_resolution(tl, n, how):
+    """the timeline's resolution is changed mid-run: the public setter, or a clock source with another resolution"""
+    if how == "clock":
+        tl.clock_source = iso.DummyClock(ticks_per_beat=n)
+    else:
+        tl.ticks_per_beat = n
+
+
 def run_auto(sc):
     dev = Dev()
     tl = iso.Timeline(output_device=dev, clock_source=iso.DummyClock(ticks_per_beat=sc["tpb"]))
@@ -62,6 +137,7 @@ def run_auto(sc):
     a = tl.automation(**kw)
     log = []
     nbind = [0]
+    targets = []
     out = {"init": f(a.value), "segs": [], "probe": [], "registered": a in tl.automations}
     tickno = [0]
     if sc.get("probe"):
@@ -99,13 +175,19 @@ def run_auto(sc):
                     a.boundaries = op[1]
                 elif op[0] == "set_default":
                     a.default_duration = op[1]
+                elif op[0] == "set_tpb":
+                    set_resolution(tl, op[1], op[2])
                 elif op[0] == "bind":
                     ident = nbind[0]
                     nbind[0] += 1
-                    if op[1] == "attr":
-                        a.bind_to(AttrTarget(ident, log), "level")
+                    parts = op[1].split("/")
+                    mode, kind, key = parts[0], (parts[1] if len(parts) > 1 else "plain"), (int(parts[2]) if len(parts) > 2 else 0)
+                    target = make_target(mode, kind, key, ident, log, op[2], a.value)
+                    targets.append(target)
+                    if mode == "attr":
+                        a.bind_to(target, "level")
                     else:
-                        a.bind_to(MethodTarget(ident, log, op[2]), "set_level", mode="method", **op[2])
+                        a.bind_to(target, "set_level", mode="method", **op[2])
             rec["value"] = f(a.value)
             rec["calls"] = sorted(log)
             del log[:]
@@ -200,6 +282,8 @@ def run_lfo_script(sc):
                     rec["n_lfos"] = len(tl.lfos)
                 elif op[0] == "reset":
                     lfo.reset()
+                elif op[0] == "set_tpb":
+                    set_resolution(tl, op[1], op[2])
                 elif op[0] == "new_pattern":
                     pat = iso.PLFO(lfo)
                 rec["value"] = f(lfo.value)
